@@ -66,13 +66,18 @@ theorem checkRec_sound : ∀ (t : Ty) (p : Payload), checkRec t p = true → con
   | .opt _, .arr _ _ _, h => by simp [checkRec] at h
   | .opt _, .list _, h => by simp [checkRec] at h
 
-/-- For tensor types the pinned `check` was already sound. -/
-theorem checkShallow_sound_tensor (e : DT) (s : Shape) (p : Payload)
+/-- For non-string tensor types the pinned `check` was already sound. -/
+theorem checkShallow_sound_tensor (e : DT) (s : Shape) (p : Payload) (he : e ≠ .str)
     (h : checkShallow (.tensor e s) p = true) : conforms (.tensor e s) p := by
   cases p with
   | arr dt sh pid =>
     simp only [checkShallow, Bool.and_eq_true] at h
-    exact ⟨dtMatch_conf h.2, shapeLe_conf h.1⟩
+    refine ⟨?_, shapeLe_conf h.1⟩
+    have h2 := h.2
+    simp only [dtMatchLoose, Bool.or_eq_true, Bool.and_eq_true, beq_iff_eq] at h2
+    rcases h2 with ⟨_, h3⟩ | h3
+    · exact absurd h3 he
+    · exact Or.inl (by rw [h3])
   | list xs => simp [checkShallow] at h
   | some v => simp [checkShallow] at h
   | none => simp [checkShallow] at h
